@@ -300,7 +300,7 @@ class Check:
                                 (name, path, list(tallies[path])[0]))
         return tallies
 
-    def replay(self, cases_file, tag="", prop_driver=None, timeout=1800, vacuity=True, only_keys=None):
+    def replay(self, cases_file, tag="", prop_driver=None, timeout=1800, vacuity=True, only_keys=None, extended=False):
         """only_keys: regex; a mismatch whose key does not match belongs to ANOTHER property's check (shared composition
         specs) and is noted here, not reported as a violation of this property."""
         if vacuity:
@@ -314,6 +314,15 @@ class Check:
         for s in rep["samples"]:
             if len(self.samples) < 8:
                 self.samples.append(s)
+        if extended:
+            # a specification that grows beyond the listed properties: its deviations are reported and recorded, but they
+            # are not violations of THIS property
+            for m in rep["mismatches"][:5]:
+                log("EXTENDED-SPEC DEVIATION (outside property %s, not a violation of it): %s" % (self.prop, m["key"]))
+            if rep["mismatches"]:
+                self.extra.setdefault("extended_spec_deviations", []).extend(
+                    dict(key=m["key"], case=m.get("case"), expected=m.get("expected"), observed=m.get("observed")) for m in rep["mismatches"][:10])
+            rep = dict(rep, mismatches=[], mismatches_total=0)
         for m in rep["mismatches"]:
             if only_keys and not re.search(only_keys, m["key"]):
                 self.extra.setdefault("deviations_belonging_to_other_properties", []).append(m["key"])
